@@ -77,6 +77,10 @@ def effect_sites(prog, ps):
 
 
 def run(ctx):
+    run_structural(ctx)
+
+
+def run_structural(ctx):
     prog = ctx.prog()
     ps = prog.method("Tcb", "process_segment")
     m = T.TcbModel(prog, ps)
